@@ -42,6 +42,11 @@ CONFIG = {
 
 def generate(rng: random.Random, tier: str, seed: int) -> dict:
     base = gen.gen_pipeline(rng)
+    n = len(base["nodes"])
+    if n >= 3 and rng.random() < 0.2:
+        # fan-in: one or two skip connections on top of the chain (the orchestrator accepts any canonical edge list)
+        pairs = [(i, j) for i in range(n) for j in range(i + 2, n)]
+        base = dict(base, extra_edges=[list(e) for e in rng.sample(pairs, min(len(pairs), rng.randint(1, 2)))])
     return {"base": base, "sub_seed": rng.getrandbits(32), "only": None, "remote_exec": rng.random() < 0.3}
 
 
@@ -78,7 +83,7 @@ def execute(sc: dict, seed: int) -> dict:
             stats["probe.orchestrator_shared_by_different_pipelines"] = 1
         for i, (kind, k, s) in enumerate(subs):
             detail = rng.choice(harness.DETAILS)
-            mode = rng.choice(["file", "file", "dir", "dir", "cwd", "dotdir"])
+            mode = rng.choice(["file", "file", "dir", "dir", "cwd", "dotdir", "file", "dir", "chardev"])
             if rng.random() < 0.15:
                 # the run is started from inside an `except` block of the caller (a retry after a handled error)
                 try:
